@@ -51,6 +51,60 @@ def run(ctx, obs):
     rng_discipline(ctx, obs)
     ceilings_same_sample(ctx, obs)
     ceiling_buffer_layout(ctx, obs)
+    covariance_normaliser(ctx, obs)
+
+
+def covariance_normaliser(ctx, obs, rule='COV-N'):
+    """A covariance written out by hand - centre M over its rows, sum the outer products (einsum / @ of M with itself), divide by
+    (count - 1) - is the SAMPLE covariance only if the count is the number of rows of M, the rows that were actually centred
+    and summed (the valid resamples).  `M.shape[0] - 1` / `len(M) - 1` -> ok; another count (the number of REQUESTED resamples N,
+    while NaN resamples were filtered out of M) -> violation; anything else -> undecided."""
+    prog = ctx.prog
+    n = 0
+    for fn in EVAL_FUNCS:
+        q = EV + fn
+        f = prog.func(q)
+        for e in ast.walk(f.node):
+            if not (isinstance(e, ast.BinOp) and isinstance(e.op, ast.Div)):
+                continue
+            num, den = e.left, e.right
+            # numerator: einsum('..', M, M) or M.T @ M / M @ M.T with one matrix name
+            ms = None
+            if isinstance(num, ast.Call) and _leaf(num.func) == 'einsum' and len(num.args) == 3 and all(isinstance(a, ast.Name) for a in num.args[1:]) \
+                    and num.args[1].id == num.args[2].id:
+                ms = num.args[1].id
+            elif isinstance(num, ast.BinOp) and isinstance(num.op, ast.MatMult):
+                names = {x.id for x in ast.walk(num) if isinstance(x, ast.Name)}
+                if len(names) == 1:
+                    ms = next(iter(names))
+            if ms is None or not (isinstance(den, ast.BinOp) and isinstance(den.op, ast.Sub) and isinstance(den.right, ast.Constant)
+                                  and den.right.value == 1):
+                continue
+            centred = any(isinstance(s_, ast.AugAssign) and isinstance(s_.op, ast.Sub) and isinstance(s_.target, ast.Name) and s_.target.id == ms
+                          and any(isinstance(c_, ast.Call) and _leaf(c_.func) in ('mean', 'nanmean') for c_ in ast.walk(s_.value))
+                          for s_ in ast.walk(f.node)) or \
+                any(isinstance(s_, ast.Assign) and isinstance(s_.targets[0], ast.Name) and s_.targets[0].id == ms and isinstance(s_.value, ast.BinOp)
+                    and isinstance(s_.value.op, ast.Sub) and any(isinstance(c_, ast.Call) and _leaf(c_.func) in ('mean', 'nanmean')
+                                                                 for c_ in ast.walk(s_.value.right)) for s_ in ast.walk(f.node))
+            if not centred:
+                continue
+            n += 1
+            cnt = den.left
+            con = f'the covariance of `{ms}` is normalised by the number of its rows minus one'
+            own = (isinstance(cnt, ast.Subscript) and isinstance(cnt.value, ast.Attribute) and cnt.value.attr == 'shape'
+                   and isinstance(cnt.value.value, ast.Name) and cnt.value.value.id == ms and isinstance(cnt.slice, ast.Constant)
+                   and cnt.slice.value == 0) or \
+                  (isinstance(cnt, ast.Call) and _leaf(cnt.func) == 'len' and cnt.args and isinstance(cnt.args[0], ast.Name) and cnt.args[0].id == ms)
+            if own:
+                obs.ok(rule, q, con, f'`{norm(den)}`', where(prog, f, e))
+            elif isinstance(cnt, ast.Name) and cnt.id in f.params:
+                obs.bad(rule, q, con, f'`{norm(e)[:80]}` divides by `{norm(den)}`: `{cnt.id}` is the number of resamples REQUESTED; `{ms}` only '
+                        f'holds the valid ones (NaN resamples are filtered out), so the covariance is too small whenever a resample was '
+                        f'too small to evaluate', where(prog, f, e))
+            else:
+                obs.unk(rule, q, con, f'`{norm(den)}`', where(prog, f, e))
+    if n == 0:
+        obs.unk(rule, EV + 'eval_dual_bootstrap', 'hand-written covariances', 'none recognised')
 
 
 def ceiling_buffer_layout(ctx, obs, rule='AXIS'):
